@@ -57,6 +57,9 @@ type Exec struct {
 	entryTmp  *State
 	coverCnt  map[string]int
 	pruned    int
+	unitOrd   map[string]int // call-site chain + call -> ordinal of the callee's short name across the inline tree
+	unitCnt   map[string]int // short callee name -> number of static call sites across the inline tree
+	root      *Frame
 }
 
 func (ex *Exec) entryContent(a *ArrObj) Content {
@@ -72,6 +75,7 @@ type Frame struct {
 	regs   map[ssa.Value]Val
 	depth  int
 	prefix string // obligation name prefix
+	chain  string // call-site chain from the unit's frame ("" for the unit itself)
 	ret    func(st *State, results []Val)
 	li     *loopInfo
 	sweep  map[string]bool
@@ -287,6 +291,9 @@ func runFunction(prog *Prog, name string, fn *ssa.Function, con *Contract) *Exec
 		f.regs[p] = v
 		f.params[p.Name()] = Binding{V: v, T: p.Type()}
 		f.params[fmt.Sprintf("arg%d", i)] = Binding{V: v, T: p.Type()}
+		if i < len(con.ParamNames) && con.ParamNames[i] != "_" {
+			f.params[con.ParamNames[i]] = Binding{V: v, T: p.Type()}
+		}
 		ex.recordInput(p.Name(), v)
 	}
 	for _, fv := range fn.FreeVars {
@@ -321,10 +328,16 @@ func runFunction(prog *Prog, name string, fn *ssa.Function, con *Contract) *Exec
 		return ex
 	}
 	// frame: the number of static call sites of the listed callees is fixed
+	ex.buildUnitOrds(fn)
+	ex.root = f
 	for _, callee := range sortedKeys(con.CallSites) {
-		n := 0
+		n := ex.unitCnt[callee]
+		// deferred and go'd calls of the unit itself
 		for _, b := range fn.Blocks {
 			for _, in := range b.Instrs {
+				if _, isCall := in.(*ssa.Call); isCall {
+					continue
+				}
 				if ci, ok := in.(ssa.CallInstruction); ok {
 					nm := prog.calleeName(ci.Common())
 					if k := strings.LastIndex(nm, "."); k >= 0 {
@@ -350,6 +363,70 @@ func runFunction(prog *Prog, name string, fn *ssa.Function, con *Contract) *Exec
 	ex.stack = []*ssa.Function{fn}
 	ex.runFrom(f, st, fn.Blocks[0], 0, nil)
 	return ex
+}
+
+// buildUnitOrds numbers the static call sites of the unit per callee short name
+// across the tree of helpers that will be inlined (block order, depth first).
+// Anchoring callassert/callsites on these numbers makes "extract these lines
+// into a helper" a harmless edit: the call keeps its ordinal.
+func (ex *Exec) buildUnitOrds(fn *ssa.Function) {
+	ex.unitOrd, ex.unitCnt = map[string]int{}, map[string]int{}
+	var walk func(fn *ssa.Function, chain string, depth int, stack []*ssa.Function)
+	walk = func(fn *ssa.Function, chain string, depth int, stack []*ssa.Function) {
+		for _, b := range fn.Blocks {
+			for _, in := range b.Instrs {
+				x, ok := in.(*ssa.Call)
+				if !ok {
+					continue
+				}
+				c := x.Common()
+				if _, isB := c.Value.(*ssa.Builtin); isB {
+					continue
+				}
+				name := ex.prog.calleeName(c)
+				callee := c.StaticCallee()
+				if callee != nil {
+					name = ex.prog.funcName(callee)
+					if o := callee.Origin(); o != nil {
+						callee = o
+					}
+				}
+				short := name
+				if k := strings.LastIndex(short, "."); k >= 0 {
+					short = short[k+1:]
+				}
+				ex.unitCnt[short]++
+				key := chain + fmt.Sprintf("%p", x)
+				ex.unitOrd[key] = ex.unitCnt[short]
+				if callee == nil || len(callee.Blocks) == 0 || depth >= 4 {
+					continue
+				}
+				onStack := false
+				for _, s := range stack {
+					if s == callee {
+						onStack = true
+					}
+				}
+				if onStack {
+					continue
+				}
+				con := ex.prog.CS.ByName[name]
+				if con != nil && con.sweepOnly() {
+					con = nil
+				}
+				inl := false
+				if con != nil && con.Inline {
+					inl = true
+				} else if con == nil && !ex.prog.CS.isPure(name) && ex.inModule(callee) && len(ex.prog.loopInfo(callee).headers) == 0 && instrCount(callee) <= 60 && depth < 3 {
+					inl = true
+				}
+				if inl {
+					walk(callee, key+"/", depth+1, append(stack, callee))
+				}
+			}
+		}
+	}
+	walk(fn, "", 0, []*ssa.Function{fn})
 }
 
 func (ex *Exec) recordInput(name string, v Val) {
